@@ -195,8 +195,8 @@ func judge(r *ev.Run, f fault, st *metrics.Store, ms []*metrics.Metric) bool {
 	}()
 	select {
 	case <-done:
-	case <-time.After(20 * time.Second):
-		r.Violation("subsequent-processing-stalled", map[string]any{"fault": f, "what": "creating a new label set / a subsequent export did not complete within 20s"})
+	case <-time.After(90 * time.Second):
+		r.Violation("subsequent-processing-stalled", map[string]any{"fault": f, "what": "creating a new label set / a subsequent export did not complete within 90s"})
 		return false
 	}
 	return true
@@ -220,8 +220,8 @@ func TestC12(t *testing.T) {
 		go func() { attempt(); close(done) }()
 		select {
 		case <-done:
-		case <-time.After(30 * time.Second):
-			r.Violation("export-attempt-hung", map[string]any{"fault": f, "what": "the export attempt itself did not return within 30s"})
+		case <-time.After(120 * time.Second):
+			r.Violation("export-attempt-hung", map[string]any{"fault": f, "what": "the export attempt itself did not return within 120s"})
 			return false
 		}
 		r.Eval(1)
